@@ -34,6 +34,28 @@ pub fn dispatch(args: &[String]) -> i32 {
         "sched-worker" => crate::sched::worker_main(&args[1..]),
         "sched-scan" => crate::sched::scan(&args[1..]),
         "selfcheck" => selfcheck(),
+        "bench-par1" => {
+            let fam = family("TM-B4");
+            let cfg = Cfg { dd: DdKind::Lel, cache: false, nodup: false, width: 1 };
+            let t0 = Instant::now();
+            let mut n = 0;
+            for idx in 0..300u64 { let m: std::sync::Arc<dyn Model> = std::sync::Arc::from(fam.build(idx, Variant::BASE)); let _ = run_par(m, &RunSpec::plain(cfg), 1); n += 1; }
+            println!("run_par (helper thread): {} runs {:?} per run", n, t0.elapsed() / n);
+            let t0 = Instant::now();
+            for idx in 0..300u64 { let m = fam.build(idx, Variant::BASE); let _ = run_seq(m.as_ref(), &RunSpec::plain(cfg)); }
+            println!("run_seq: {:?} per run", t0.elapsed() / 300);
+            let t0 = Instant::now();
+            for _ in 0..300 { std::thread::spawn(|| {}).join().unwrap(); }
+            println!("bare spawn+join: {:?}", t0.elapsed() / 300);
+            crate::par::pin_current_thread(3);
+            let t0 = Instant::now();
+            for _ in 0..300 { std::thread::spawn(|| {}).join().unwrap(); }
+            println!("pinned bare spawn+join: {:?}", t0.elapsed() / 300);
+            let t0 = Instant::now();
+            for idx in 0..300u64 { let m: std::sync::Arc<dyn Model> = std::sync::Arc::from(fam.build(idx, Variant::BASE)); let _ = run_par(m, &RunSpec::plain(cfg), 1); }
+            println!("pinned run_par: {:?} per run", t0.elapsed() / 300);
+            0
+        }
         x => { eprintln!("unknown command {}", x); 2 }
     }
 }
@@ -99,7 +121,7 @@ fn selfcheck() -> i32 {
     let mut bad = 0u64;
     for fam in all_families() {
         let cnt = fam.count().min(4000);
-        let vars = match fam { Fam::Sp { .. } => variants_sp(), Fam::Kp { .. } | Fam::Kpz { .. } => variants_kp(), Fam::TmIrr { .. } => variants_irr(), _ => variants_ca() };
+        let vars = match fam { Fam::Sp { .. } => variants_sp(), Fam::Kp { .. } | Fam::Kpz { .. } | Fam::Kpb { .. } => variants_kp(), Fam::TmIrr { .. } => variants_irr(), _ => variants_ca() };
         for idx in 0..cnt {
             for var in vars.iter() {
                 let m = fam.build(idx, *var);
@@ -189,8 +211,10 @@ fn plans_c01(thorough: bool, mode: Mode) -> Vec<Plan> {
         plan("KP-3", variants_kp(), true, &full, mode, None),
         plan("KPZ-3", variants_kp(), false, &c3, mode, None),
         plan("KPZ-4", variants_kp(), true, &c3, mode, None),
+        plan("KPB-6", variants_kp(), true, &c3, mode, None),
     ];
     if thorough {
+        p.push(plan("KPB-7", variants_kp(), true, &c3, mode, None));
         p.push(plan("TM-A", variants_ca(), false, &c3, mode, Some(100_000)));
         p.push(plan("TM-Abot", variants_ca(), true, &c3, mode, Some(3_000_000)));
         p.push(plan("TM-B4", variants_ca(), false, &full, mode, None));
@@ -241,7 +265,9 @@ fn c02(tier: &str) -> i32 {
     rep.finish("model_checking", cov, vec!["sequential runs are deterministic; parallel part: see DESIGN 2.5 (scheduler owns all accesses to shared state)".to_string()])
 }
 
-fn plans_c05(thorough: bool, full: &[Cfg], c3: &[Cfg]) -> Vec<Plan> {
+fn plans_c05(thorough: bool, full: &[Cfg], c3: &[Cfg]) -> Vec<Plan> { plans_c05h(thorough, full, c3, false) }
+/// `heavy`: the larger knapsack families too (C19 runs them; C05 and C02 share their budget with the parallel parts)
+fn plans_c05h(thorough: bool, full: &[Cfg], c3: &[Cfg], heavy: bool) -> Vec<Plan> {
     let m = Mode::Cutoffs;
     let mut p = vec![
         plan("TM-0b", variants_ca(), false, full, m, None),
@@ -253,7 +279,16 @@ fn plans_c05(thorough: bool, full: &[Cfg], c3: &[Cfg]) -> Vec<Plan> {
         plan("SP-4", variants_sp(), true, c3, m, Some(if thorough { 5184 } else { 1500 })),
         plan("KP-2", variants_kp(), true, full, m, None),
         plan("KP-3", variants_kp(), true, c3, m, Some(if thorough { 5103 } else { 1200 })),
+        plan("KP-4", variants_kp(), true, c3, m, Some(if thorough { 45927 } else { 6000 })),
+        plan("KPZ-4", variants_kp(), true, c3, m, Some(if thorough { 9072 } else { 2000 })),
     ];
+    if heavy || thorough {
+        p.push(plan("KP-5", variants_kp(), true, c3, m, Some(if thorough { 413_343 } else { 20_000 })));
+        p.push(plan("KPB-6", variants_kp(), true, c3, m, None));
+        p.push(plan("KPB-7", variants_kp(), true, c3, m, Some(if thorough { 114_688 } else { 20_000 })));
+    } else {
+        p.push(plan("KPB-6", variants_kp(), true, c3, m, Some(6000)));
+    }
     if thorough {
         p.push(plan("TM-A", variants_ca(), true, c3, m, Some(200_000)));
         p.push(plan("TM-N2.1", variants_ca(), true, c3, m, None));
@@ -285,7 +320,7 @@ fn c05(tier: &str) -> i32 {
 fn c19(tier: &str) -> i32 {
     let rep = Reporter::new("C19", tier);
     let th = rep.thorough();
-    let plans = plans_c05(th, &Cfg::full(&W4), &Cfg::full(&W3));
+    let plans = plans_c05h(th, &Cfg::full(&W4), &Cfg::full(&W3), true);
     let (agg, scopes, complete) = run_plans(&rep, &["C19"], &plans, deadline(&rep, 50, 1200));
     finish(&rep, "fault_enumeration", &agg, scopes, complete, agg.cut_runs + agg.runs, agg.cut_nontrivial,
         "for every (instance, variant, configuration) of the scopes and EVERY consecutive pair of cut-off indices (k, k+1), k in 1..=K (run K+1 = uninterrupted): LB(k) <= LB(k+1) and UB(k) >= UB(k+1); the uninterrupted run is exact with LB = UB = optimum; non-trivial = interrupted runs which had popped >= 1 sub-problem and are inexact",
@@ -308,8 +343,11 @@ fn c09(tier: &str) -> i32 {
         plan("TM-N3.1", vars.clone(), true, &full, m, None),
         plan("SP-4", variants_sp(), false, &c3, m, if th { None } else { Some(2000) }),
         plan("KP-3", variants_kp(), true, &c3, m, None),
+        plan("KP-4", variants_kp(), true, &c3, m, Some(if th { 45927 } else { 10000 })),
+        plan("KPB-6", variants_kp(), true, &c3, m, None),
     ];
     if th {
+        plans.push(plan("KPB-7", variants_kp(), true, &c3, m, None));
         plans.push(plan("TM-B5", vars.clone(), true, &c3, m, None));
         plans.push(plan("TM-B4w", vars.clone(), true, &c3, m, Some(600_000)));
         plans.push(plan("TM-D4", vars.clone(), true, &c3, m, None));
